@@ -17,8 +17,11 @@ selftest    the construction itself against scipy dblquad / tplquad over physica
             (a failure is a harness error -> run inconclusive, never a verdict on the code).
 smooth      poly x exp(-E/T) deviations vs dblquad: recorded, never judged (DESIGN C13).
 
-Tolerances are rounding bounds evaluated for the very case (see _exact_tol, _tm_tol,
-_lin_tol); the constants count floating-point operations, they are not fitted.
+Tolerances are rounding bounds evaluated for the very case (see _exact_tol, _tm_tol and
+the K of the linearity block); the constants count floating-point operations, they are
+not fitted.  Observed on the unchanged tree (quick seeds 0-4, thorough seeds 0-1):
+max residual/tolerance 0.04 (moments), 0.06 (T30/T33), 0.08 (additivity); Cardinal-input
+moment error <= 4.5e-16 of the coefficient-norm scale.
 """
 from __future__ import annotations
 
